@@ -24,6 +24,10 @@ VARIABLES l, nf, fl, und, nob
 tvars == <<l, nf, fl, und, nob>>
 
 Act(p) == ("ACT_" \o p) \in DOMAIN IOEnv
+(* owners of the obligations: C12 / C10; the stand-alone registrations C12N / C10S
+   (./check C12N, ./check C10S and their --replay) activate and own them under their own id *)
+P12 == IF "ACT_C12N" \in DOMAIN IOEnv THEN "C12N" ELSE "C12"
+P10 == IF "ACT_C10S" \in DOMAIN IOEnv THEN "C10S" ELSE "C10"
 O(p, name, ok) == IF Act(p) THEN <<p, name, ok>> ELSE <<p, name, TRUE>>
 U(p, name) == <<p, name, TRUE, "undecided">>
 Has(r, f) == f \in DOMAIN r
@@ -59,20 +63,20 @@ AddClass(a, b) ==
   ELSE IF a.e = b.e THEN "same_exp" ELSE "diff_exp"
 
 NatAddObs(r) ==
-  IF ~NatOk2(r) THEN << O("C12", "natural.transport", FALSE) >>
+  IF ~NatOk2(r) THEN << O(P12, "natural.transport", FALSE) >>
   ELSE
     LET a == NObs(r.a)
         b == NObs(r.b)
         x == NAdd(a, b)
         cls == IF x.dec /\ x.v.nan /\ IsNum(a) /\ IsNum(b) THEN "exp_overflow" ELSE AddClass(a, b)
-    IN  IF ~x.dec THEN << U("C12", "natural.add:far_exponents") >>
-        ELSE IF Panicked(r) THEN << O("C12", "natural.add:" \o cls, FALSE) >>
-        ELSE << O("C12", "natural.add:" \o cls, NatResOk(r) /\ NObs(r.res.v) = x.v),
-                O("C12", "natural.canonical:add", NatResOk(r) /\ NCanonical(r.res.v)) >>
+    IN  IF ~x.dec THEN << U(P12, "natural.add:far_exponents") >>
+        ELSE IF Panicked(r) THEN << O(P12, "natural.add:" \o cls, FALSE) >>
+        ELSE << O(P12, "natural.add:" \o cls, NatResOk(r) /\ NObs(r.res.v) = x.v),
+                O(P12, "natural.canonical:add", NatResOk(r) /\ NCanonical(r.res.v)) >>
 TrNatAdd == Ev("nat_add") /\ Step(NatAddObs(Rec[l]))
 
 ShiftObs(r, left) ==
-  IF ~(NWellFormed(r.a) /\ IsLimbs(r.k)) THEN << O("C12", "natural.transport", FALSE) >>
+  IF ~(NWellFormed(r.a) /\ IsLimbs(r.k)) THEN << O(P12, "natural.transport", FALSE) >>
   ELSE
     LET a == NObs(r.a)
         x == IF left THEN NShl(a, r.k) ELSE NShr(a, r.k)
@@ -81,9 +85,9 @@ ShiftObs(r, left) ==
                ELSE IF x.nan THEN (IF left THEN "exp_overflow" ELSE "inexact")
                ELSE (IF left THEN "plain" ELSE "exact")
         name == (IF left THEN "natural.shl:" ELSE "natural.shr:") \o cls
-    IN  IF Panicked(r) THEN << O("C12", name, FALSE) >>
-        ELSE << O("C12", name, NatResOk(r) /\ NObs(r.res.v) = x),
-                O("C12", IF left THEN "natural.canonical:shl" ELSE "natural.canonical:shr",
+    IN  IF Panicked(r) THEN << O(P12, name, FALSE) >>
+        ELSE << O(P12, name, NatResOk(r) /\ NObs(r.res.v) = x),
+                O(P12, IF left THEN "natural.canonical:shl" ELSE "natural.canonical:shr",
                   NatResOk(r) /\ NCanonical(r.res.v)) >>
 TrNatShl == Ev("nat_shl") /\ Step(ShiftObs(Rec[l], TRUE))
 TrNatShr == Ev("nat_shr") /\ Step(ShiftObs(Rec[l], FALSE))
@@ -93,7 +97,7 @@ TrNatShr == Ev("nat_shr") /\ Step(ShiftObs(Rec[l], FALSE))
    than actual natural numbers"); NaN == NaN holds (the type implements Eq);
    partial_cmp(NaN, NaN) is left open. *)
 NatCmpObs(r) ==
-  IF ~NatOk2(r) THEN << O("C12", "natural.transport", FALSE) >>
+  IF ~NatOk2(r) THEN << O(P12, "natural.transport", FALSE) >>
   ELSE
     LET a == NObs(r.a)
         b == NObs(r.b)
@@ -101,52 +105,52 @@ NatCmpObs(r) ==
                ELSE IF a.m = <<>> \/ b.m = <<>> THEN "zero"
                ELSE IF NBitWidth(a) # NBitWidth(b) THEN "bit_width" ELSE "aligned"
         v == r.res
-    IN  IF Panicked(r) THEN << O("C12", "natural.cmp:" \o cls, FALSE) >>
+    IN  IF Panicked(r) THEN << O(P12, "natural.cmp:" \o cls, FALSE) >>
         ELSE IF a.nan /\ b.nan THEN
-          << O("C12", "natural.cmp:nan", v.cmp \in {"none", "eq"}),
-             O("C12", "natural.eq:nan", v.eq),
-             O("C12", "natural.hash", v.heq) >>
+          << O(P12, "natural.cmp:nan", v.cmp \in {"none", "eq"}),
+             O(P12, "natural.eq:nan", v.eq),
+             O(P12, "natural.hash", v.heq) >>
         ELSE IF a.nan \/ b.nan THEN
-          << O("C12", "natural.cmp:nan", v.cmp = "none"),
-             O("C12", "natural.eq:nan", ~v.eq),
-             O("C12", "natural.ord_ops", ~v.lt /\ ~v.le /\ ~v.gt /\ ~v.ge) >>
+          << O(P12, "natural.cmp:nan", v.cmp = "none"),
+             O(P12, "natural.eq:nan", ~v.eq),
+             O(P12, "natural.ord_ops", ~v.lt /\ ~v.le /\ ~v.gt /\ ~v.ge) >>
         ELSE LET c == NCmpNum(a, b) IN
-          << O("C12", "natural.cmp:" \o cls, v.cmp = c),
-             O("C12", "natural.eq:" \o cls, v.eq = (c = "eq")),
-             O("C12", "natural.hash", (c = "eq") => v.heq),
-             O("C12", "natural.ord_ops", /\ v.lt = (c = "lt") /\ v.le = (c \in {"lt", "eq"})
+          << O(P12, "natural.cmp:" \o cls, v.cmp = c),
+             O(P12, "natural.eq:" \o cls, v.eq = (c = "eq")),
+             O(P12, "natural.hash", (c = "eq") => v.heq),
+             O(P12, "natural.ord_ops", /\ v.lt = (c = "lt") /\ v.le = (c \in {"lt", "eq"})
                                          /\ v.gt = (c = "gt") /\ v.ge = (c \in {"gt", "eq"})) >>
 TrNatCmp == Ev("nat_cmp") /\ Step(NatCmpObs(Rec[l]))
 
 NatFromObs(r) ==
-  IF ~IsLimbs(r.x) THEN << O("C12", "natural.transport", FALSE) >>
+  IF ~IsLimbs(r.x) THEN << O(P12, "natural.transport", FALSE) >>
   ELSE LET name == "natural.from_" \o r.ty IN
-       IF Panicked(r) THEN << O("C12", name, FALSE) >>
-       ELSE << O("C12", name, NatResOk(r) /\ NObs(r.res.v) = NFromLimbs(r.x)),
-               O("C12", "natural.canonical:from_" \o r.ty, NatResOk(r) /\ NCanonical(r.res.v)) >>
+       IF Panicked(r) THEN << O(P12, name, FALSE) >>
+       ELSE << O(P12, name, NatResOk(r) /\ NObs(r.res.v) = NFromLimbs(r.x)),
+               O(P12, "natural.canonical:from_" \o r.ty, NatResOk(r) /\ NCanonical(r.res.v)) >>
 TrNatFrom == Ev("nat_from") /\ Step(NatFromObs(Rec[l]))
 
 NatDigitsObs(r) ==
   IF ~(\A i \in 1 .. Len(r.ds) : IsLimbs(r.ds[i]) /\ LCmp(r.ds[i], Two64) < 0)
-  THEN << O("C12", "natural.transport", FALSE) >>
-  ELSE IF Panicked(r) THEN << O("C12", "natural.from_le_digits", FALSE) >>
-  ELSE << O("C12", "natural.from_le_digits", NatResOk(r) /\ NObs(r.res.v) = NFromLimbs(FromDigits64(r.ds))),
-          O("C12", "natural.canonical:from_le_digits", NatResOk(r) /\ NCanonical(r.res.v)) >>
+  THEN << O(P12, "natural.transport", FALSE) >>
+  ELSE IF Panicked(r) THEN << O(P12, "natural.from_le_digits", FALSE) >>
+  ELSE << O(P12, "natural.from_le_digits", NatResOk(r) /\ NObs(r.res.v) = NFromLimbs(FromDigits64(r.ds))),
+          O(P12, "natural.canonical:from_le_digits", NatResOk(r) /\ NCanonical(r.res.v)) >>
 TrNatDigits == Ev("nat_digits") /\ Step(NatDigitsObs(Rec[l]))
 
 NatTryObs(r) ==
-  IF ~NWellFormed(r.a) THEN << O("C12", "natural.transport", FALSE) >>
+  IF ~NWellFormed(r.a) THEN << O(P12, "natural.transport", FALSE) >>
   ELSE
     LET a == NObs(r.a)
         x == NToU(a, IF r.ty = "u64" THEN 64 ELSE 128)
         cls == IF a.nan THEN "nan" ELSE IF x.ok THEN "fits" ELSE "too_big"
         name == "natural.try_" \o r.ty \o ":" \o cls
-    IN  IF Panicked(r) THEN << O("C12", name, FALSE) >>
-        ELSE << O("C12", name, r.res.v.ok = x.ok /\ (x.ok => r.res.v.x = x.x)) >>
+    IN  IF Panicked(r) THEN << O(P12, name, FALSE) >>
+        ELSE << O(P12, name, r.res.v.ok = x.ok /\ (x.ok => r.res.v.x = x.x)) >>
 TrNatTry == Ev("nat_try") /\ Step(NatTryObs(Rec[l]))
 
 NatF64Obs(r) ==
-  IF ~NWellFormed(r.a) THEN << O("C12", "natural.transport", FALSE) >>
+  IF ~NWellFormed(r.a) THEN << O(P12, "natural.transport", FALSE) >>
   ELSE
     LET a == NObs(r.a)
         x == NToF64(a)
@@ -154,29 +158,29 @@ NatF64Obs(r) ==
                ELSE IF x.x = 2047 THEN "inf"
                ELSE IF BitLen(a.m) <= 53 THEN "exact" ELSE "rounded"
         name == "natural.to_f64:" \o cls
-    IN  IF Panicked(r) THEN << O("C12", name, FALSE) >>
+    IN  IF Panicked(r) THEN << O(P12, name, FALSE) >>
         ELSE LET v == r.res.v IN
-             IF ~FWellFormed(v) THEN << O("C12", "natural.transport", FALSE) >>
-             ELSE IF x.nan THEN << O("C12", name, v.x = 2047 /\ v.f # <<>>) >>
-             ELSE << O("C12", name, v.s = x.s /\ v.x = x.x /\ v.f = x.f) >>
+             IF ~FWellFormed(v) THEN << O(P12, "natural.transport", FALSE) >>
+             ELSE IF x.nan THEN << O(P12, name, v.x = 2047 /\ v.f # <<>>) >>
+             ELSE << O(P12, name, v.s = x.s /\ v.x = x.x /\ v.f = x.f) >>
 TrNatF64 == Ev("nat_f64") /\ Step(NatF64Obs(Rec[l]))
 
 NatBwObs(r) ==
-  IF ~NWellFormed(r.a) THEN << O("C12", "natural.transport", FALSE) >>
-  ELSE IF Panicked(r) THEN << O("C12", "natural.bit_width", FALSE) >>
-  ELSE << O("C12", "natural.bit_width", r.res.v = NBitWidth(NObs(r.a))) >>
+  IF ~NWellFormed(r.a) THEN << O(P12, "natural.transport", FALSE) >>
+  ELSE IF Panicked(r) THEN << O(P12, "natural.bit_width", FALSE) >>
+  ELSE << O(P12, "natural.bit_width", r.res.v = NBitWidth(NObs(r.a))) >>
 TrNatBw == Ev("nat_bw") /\ Step(NatBwObs(Rec[l]))
 
 RadixName(x) == CASE x = "b" -> "bin" [] x = "o" -> "oct" [] x = "x" -> "hex" [] x = "X" -> "HEX" [] x = "d" -> "dec"
 NatFmtObs(r) ==
-  IF ~NWellFormed(r.a) THEN << O("C12", "natural.transport", FALSE) >>
+  IF ~NWellFormed(r.a) THEN << O(P12, "natural.transport", FALSE) >>
   ELSE
     LET a == NObs(r.a)
         sp == [alt |-> r.alt, plus |-> r.plus, zero |-> r.zero, width |-> r.width, fill |-> r.fill, align |-> r.align]
     IN  IF a.nan THEN
-          (IF Panicked(r) THEN << O("C12", "natural.fmt.nan", FALSE) >>
-           ELSE << O("C12", "natural.fmt.nan", FmtNaNOk(r.res.v, sp)) >>)
-        ELSE IF ~NSmallExp(a) THEN << U("C12", "natural.fmt:huge") >>
+          (IF Panicked(r) THEN << O(P12, "natural.fmt.nan", FALSE) >>
+           ELSE << O(P12, "natural.fmt.nan", FmtNaNOk(r.res.v, sp)) >>)
+        ELSE IF ~NSmallExp(a) THEN << U(P12, "natural.fmt:huge") >>
         ELSE
           LET ds == Digits(NValue(a), r.radix)
               pre == Prefix(r.radix)
@@ -184,15 +188,15 @@ NatFmtObs(r) ==
                      \o (IF FmtPads(ds, pre, sp) THEN (IF sp.zero THEN "zeropad" ELSE "pad") ELSE "nopad")
                      \o (IF sp.plus \/ (sp.alt /\ pre # <<>>) THEN "+prefix" ELSE "")
               name == "natural.fmt." \o RadixName(r.radix) \o ":" \o cls
-          IN  IF Panicked(r) THEN << O("C12", name, FALSE) >>
-              ELSE << O("C12", name, r.res.v = FmtInt(ds, pre, sp)) >>
+          IN  IF Panicked(r) THEN << O(P12, name, FALSE) >>
+              ELSE << O(P12, name, r.res.v = FmtInt(ds, pre, sp)) >>
 TrNatFmt == Ev("nat_fmt") /\ Step(NatFmtObs(Rec[l]))
 
 (* clone_from: the destination becomes a copy of the source *)
 NatCloneObs(r) ==
-  IF ~(NWellFormed(r.dst) /\ NWellFormed(r.src)) THEN << O("C12", "natural.transport", FALSE) >>
-  ELSE IF Panicked(r) THEN << O("C12", "natural.clone_from", FALSE) >>
-  ELSE << O("C12", "natural.clone_from",
+  IF ~(NWellFormed(r.dst) /\ NWellFormed(r.src)) THEN << O(P12, "natural.transport", FALSE) >>
+  ELSE IF Panicked(r) THEN << O(P12, "natural.clone_from", FALSE) >>
+  ELSE << O(P12, "natural.clone_from",
             /\ NatResOk(r) /\ NObs(r.res.v) = NObs(r.src)
             /\ NWellFormed(r.res.sum0) /\ NObs(r.res.sum0) = NObs(r.src)) >>
 TrNatClone == Ev("nat_clone_from") /\ Step(NatCloneObs(Rec[l]))
@@ -201,12 +205,12 @@ TrNatClone == Ev("nat_clone_from") /\ Step(NatCloneObs(Rec[l]))
 (* C10: I64 *)
 
 I64OpObs(r) ==
-  IF ~(IWellFormed(r.a) /\ IWellFormed(r.b)) THEN << O("C10", "i64.transport", FALSE) >>
+  IF ~(IWellFormed(r.a) /\ IWellFormed(r.b)) THEN << O(P10, "i64.transport", FALSE) >>
   ELSE
     LET x == I64Op(r.op, IDec(r.a), IDec(r.b))
         name == "i64." \o r.op \o ":" \o x.cls
-    IN  IF Panicked(r) THEN << O("C10", name, FALSE) >>
-        ELSE << O("C10", name, IWellFormed(r.res.v) /\ IDec(r.res.v) = x.v) >>
+    IN  IF Panicked(r) THEN << O(P10, name, FALSE) >>
+        ELSE << O(P10, name, IWellFormed(r.res.v) /\ IDec(r.res.v) = x.v) >>
 TrI64Op == Ev("i64_op") /\ Step(I64OpObs(Rec[l]))
 
 CmpObs(P, pre, x, v) ==
@@ -216,10 +220,10 @@ CmpObs(P, pre, x, v) ==
      O(P, pre \o ".ord_ops:" \o x.cls, /\ v.lt = (x.c = "lt") /\ v.le = (x.c \in {"lt", "eq"})
                                        /\ v.gt = (x.c = "gt") /\ v.ge = (x.c \in {"gt", "eq"})) >>
 I64CmpObs(r) ==
-  IF ~(IWellFormed(r.a) /\ IWellFormed(r.b)) THEN << O("C10", "i64.transport", FALSE) >>
+  IF ~(IWellFormed(r.a) /\ IWellFormed(r.b)) THEN << O(P10, "i64.transport", FALSE) >>
   ELSE LET x == ICmp(IDec(r.a), IDec(r.b)) IN
-       IF Panicked(r) THEN << O("C10", "i64.cmp:" \o x.cls, FALSE) >>
-       ELSE CmpObs("C10", "i64", x, r.res)
+       IF Panicked(r) THEN << O(P10, "i64.cmp:" \o x.cls, FALSE) >>
+       ELSE CmpObs(P10, "i64", x, r.res)
 TrI64Cmp == Ev("i64_cmp") /\ Step(I64CmpObs(Rec[l]))
 
 (* Display of a number is its decimal text; the text of every value parses
@@ -227,46 +231,46 @@ TrI64Cmp == Ev("i64_cmp") /\ Step(I64CmpObs(Rec[l]))
    (documented in NumberBase).  The texts of the infinities and of NaN are
    not documented and not constrained. *)
 I64UnaryObs(r) ==
-  IF ~IWellFormed(r.a) THEN << O("C10", "i64.transport", FALSE) >>
-  ELSE IF Panicked(r) THEN << O("C10", "i64.display", FALSE) >>
+  IF ~IWellFormed(r.a) THEN << O(P10, "i64.transport", FALSE) >>
+  ELSE IF Panicked(r) THEN << O(P10, "i64.display", FALSE) >>
   ELSE
     LET a == IDec(r.a)
         v == r.res
-    IN  << O("C10", "i64.display:" \o a.tag, IIsNum(a) => v.v = IDecimal(ISInt(a))),
-           O("C10", "i64.parse:roundtrip", v.back.some /\ IWellFormed(v.back.v) /\ IDec(v.back.v) = a),
-           O("C10", "i64.is_zero", v.is_zero = (IIsNum(a) /\ a.mag = <<>>)),
-           O("C10", "i64.is_one", v.is_one = (IIsNum(a) /\ ~a.neg /\ a.mag = One)),
-           O("C10", "i64.is_nan", v.is_nan = (a.tag = "nan")) >>
+    IN  << O(P10, "i64.display:" \o a.tag, IIsNum(a) => v.v = IDecimal(ISInt(a))),
+           O(P10, "i64.parse:roundtrip", v.back.some /\ IWellFormed(v.back.v) /\ IDec(v.back.v) = a),
+           O(P10, "i64.is_zero", v.is_zero = (IIsNum(a) /\ a.mag = <<>>)),
+           O(P10, "i64.is_one", v.is_one = (IIsNum(a) /\ ~a.neg /\ a.mag = One)),
+           O(P10, "i64.is_nan", v.is_nan = (a.tag = "nan")) >>
 TrI64Unary == Ev("i64_unary") /\ Step(I64UnaryObs(Rec[l]))
 
 (* C10: F64 *)
 F64OpObs(r) ==
-  IF ~(FWellFormed(r.a) /\ FWellFormed(r.b)) THEN << O("C10", "f64.transport", FALSE) >>
+  IF ~(FWellFormed(r.a) /\ FWellFormed(r.b)) THEN << O(P10, "f64.transport", FALSE) >>
   ELSE
     LET x == F64Op(r.op, FDec(r.a), FDec(r.b))
         name == "f64." \o r.op \o ":" \o x.cls
-    IN  IF Panicked(r) THEN << O("C10", name, FALSE) >>
-        ELSE IF ~FWellFormed(r.res.v) THEN << O("C10", "f64.transport", FALSE) >>
-        ELSE << IF x.dec THEN O("C10", name, FDec(r.res.v) = x.v) ELSE U("C10", name),
-                O("C10", "f64.normalised:" \o r.op, FIsNormalised(r.res.v)) >>
+    IN  IF Panicked(r) THEN << O(P10, name, FALSE) >>
+        ELSE IF ~FWellFormed(r.res.v) THEN << O(P10, "f64.transport", FALSE) >>
+        ELSE << IF x.dec THEN O(P10, name, FDec(r.res.v) = x.v) ELSE U(P10, name),
+                O(P10, "f64.normalised:" \o r.op, FIsNormalised(r.res.v)) >>
 TrF64Op == Ev("f64_op") /\ Step(F64OpObs(Rec[l]))
 
 F64CmpObs(r) ==
-  IF ~(FWellFormed(r.a) /\ FWellFormed(r.b)) THEN << O("C10", "f64.transport", FALSE) >>
+  IF ~(FWellFormed(r.a) /\ FWellFormed(r.b)) THEN << O(P10, "f64.transport", FALSE) >>
   ELSE LET x == FCmp(FDec(r.a), FDec(r.b)) IN
-       IF Panicked(r) THEN << O("C10", "f64.cmp:" \o x.cls, FALSE) >>
-       ELSE CmpObs("C10", "f64", x, r.res)
+       IF Panicked(r) THEN << O(P10, "f64.cmp:" \o x.cls, FALSE) >>
+       ELSE CmpObs(P10, "f64", x, r.res)
 TrF64Cmp == Ev("f64_cmp") /\ Step(F64CmpObs(Rec[l]))
 
 (* construction normalises; every other value is kept bit for bit *)
 F64FromObs(r) ==
-  IF ~FWellFormed(r.x) THEN << O("C10", "f64.transport", FALSE) >>
-  ELSE IF Panicked(r) THEN << O("C10", "f64.from", FALSE) >>
-  ELSE IF ~FWellFormed(r.res.v) THEN << O("C10", "f64.transport", FALSE) >>
+  IF ~FWellFormed(r.x) THEN << O(P10, "f64.transport", FALSE) >>
+  ELSE IF Panicked(r) THEN << O(P10, "f64.from", FALSE) >>
+  ELSE IF ~FWellFormed(r.res.v) THEN << O(P10, "f64.transport", FALSE) >>
   ELSE LET isnan == r.x.x = 2047 /\ r.x.f # <<>>
            isz == r.x.x = 0 /\ r.x.f = <<>>
            v == r.res.v
-       IN  << O("C10", "f64.from:" \o (IF isnan THEN "nan" ELSE IF isz THEN "zero" ELSE "other"),
+       IN  << O(P10, "f64.from:" \o (IF isnan THEN "nan" ELSE IF isz THEN "zero" ELSE "other"),
                 IF isnan THEN v.s = 0 /\ v.x = 2047 /\ v.f = CanonNaNFrac
                 ELSE IF isz THEN v.s = 0 /\ v.x = 0 /\ v.f = <<>>
                 ELSE v = r.x) >>
@@ -274,10 +278,10 @@ TrF64From == Ev("f64_from") /\ Step(F64FromObs(Rec[l]))
 
 (* a parsed value is a value of the type: in normal form *)
 F64ParseObs(r) ==
-  IF Panicked(r) THEN << O("C10", "f64.parse", FALSE) >>
+  IF Panicked(r) THEN << O(P10, "f64.parse", FALSE) >>
   ELSE IF ~r.res.some THEN <<>>
-  ELSE IF ~FWellFormed(r.res.v) THEN << O("C10", "f64.transport", FALSE) >>
-  ELSE << O("C10", "f64.parse:normalised", FIsNormalised(r.res.v)) >>
+  ELSE IF ~FWellFormed(r.res.v) THEN << O(P10, "f64.transport", FALSE) >>
+  ELSE << O(P10, "f64.parse:normalised", FIsNormalised(r.res.v)) >>
 TrF64Parse == Ev("f64_parse") /\ Step(F64ParseObs(Rec[l]))
 
 ----------------------------------------------------------------------------
